@@ -103,3 +103,8 @@ Definition ctc_alphabet (W : nat) (syms : list N) : list N :=
 (* smaller: every valid word, but only the uniform words as invalid ones *)
 Definition ctc_alphabet_small (W : nat) (syms : list N) : list N :=
   map (ctc_pack_in W true) (words_over W syms) ++ map (fun s => ctc_pack_in W false (repeat s W)) syms.
+
+(* environment for the cheaper (quick-tier) lock-step obligation: the marker symbol b occurs at most k times
+   among the 2W buffer positions (valid or stale) and the incoming word together *)
+Definition ctc_env_marked (W : nat) (b : N) (k : nat) (st : ctc_state) (i : N) : bool :=
+  (length (filter (N.eqb b) (buf st)) + length (filter (N.eqb b) (isyms (ctc_din W i))) <=? k)%nat.
